@@ -479,13 +479,54 @@ func runC13(c *Ctx, d c13Desc) {
 	}
 	rt.Respond(ev.ReqID(), []byte("done"), nil)
 	vh.Go(func() *vh.Resp { return rt.Next() })
+	var again []*c13Ext
 	for _, e := range exts {
 		if e.parked != nil && contains(e.events, "INVOKE") {
 			e2 := e
-			vh.Go(func() *vh.Resp { return e2.pt.ExtNextID(e2.id) })
+			e.parked = vh.Go(func() *vh.Resp { return e2.pt.ExtNextID(e2.id) })
+			again = append(again, e)
 		}
 	}
-	c.Check(inv.Wait(5*time.Second) && inv.Err == nil, "invocation_completes", "C13/invocation-stuck", "the invocation did not complete with the model's set of INVOKE subscribers", vh.ErrName(inv.Err))
+	done := c.Check(inv.Wait(5*time.Second) && inv.Err == nil, "invocation_completes", "C13/invocation-stuck", "the invocation did not complete with the model's set of INVOKE subscribers", vh.ErrName(inv.Err))
+
+	// ---- an exit error reported while a LATER next is parked is final too ----
+	if done && len(again) > 0 {
+		e := again[len(d.Ops)%len(again)]
+		name := e.name
+		vh.Settle(e.parked, func() bool { return w.E.ExtState(name) == "Ready" }, 3*time.Second)
+		if e.pt2 == nil {
+			e.pt2 = vh.NewParty(e.pt.Src+"#2", w.E.Addr, w.E.Log, rtp.Ctx)
+		}
+		stateOf := func() string {
+			for _, x := range w.E.State().Extensions {
+				if x.Name == name {
+					return x.State.Name
+				}
+			}
+			return "?"
+		}
+		if r := e.pt2.ExtExitError(e.id, "Extension.LateExit"); c.Check(r.Status == 202, "exit_error_any_time", fmt.Sprintf("C13/late-exit-error/%s/%d-%s", e.kind, r.Status, r.Etype), "exit error report of an extension parked in a later next was refused", nil) {
+			c.Check(stateOf() == "ExitError", "state_matches_model", "C13/state/"+stateOf()+"-vs-ExitError", "accepted exit error report did not put the extension into ExitError", name)
+			inv2 := w.E.InvokeAsync([]byte("second-event"), vh.InvokeOpts{})
+			_ = inv2
+			// the parked next may stay parked or be refused; it must not be served
+			pr := e.parked.Wait(400 * time.Millisecond)
+			c.Check(pr == nil || pr.Status != 200, "exit_error_final", fmt.Sprintf("C13/exit-error-not-final/%s/parked-next-served", e.kind), "a next parked across an accepted exit error report was served an event afterwards", name)
+			if pr != nil {
+				c.Counter("parked_next_after_exit_error_"+fmt.Sprint(pr.Status), 1)
+			} else {
+				c.Counter("parked_next_after_exit_error_stays_parked", 1)
+			}
+			c.Check(stateOf() == "ExitError", "exit_error_final", fmt.Sprintf("C13/exit-error-not-final/%s/state-%s", e.kind, stateOf()), "ExitError state was left after a later platform release", name)
+			if pr != nil {
+				r2 := e.pt2.ExtNextID(e.id)
+				c.Check(r2.Status == 403 && r2.Etype == "Extension.InvalidExtensionState", "exit_error_final", fmt.Sprintf("C13/exit-error-not-final/%s/next-%d-%s", e.kind, r2.Status, r2.Etype), "next after an accepted exit error report was not refused", name)
+				r3 := e.pt2.ExtExitError(e.id, "Extension.Again")
+				c.Check(r3.Status == 403 || r3.Status == 202, "exit_error_final", fmt.Sprintf("C13/exit-error-not-final/%s/again-%d", e.kind, r3.Status), "repeated exit error report answered unexpectedly", name)
+				c.Check(stateOf() == "ExitError", "exit_error_final", fmt.Sprintf("C13/exit-error-not-final/%s/state2-%s", e.kind, stateOf()), "ExitError state was left by refused calls", name)
+			}
+		}
+	}
 	c.SetTrace(strings.Join(trace, " "), true)
 	if c.WantSample || c.Violated() {
 		c.SetSample(sampleLog(w, 100))
